@@ -591,6 +591,9 @@ func (m *Model) buildUnits() {
 			if obj := owner.Object(); owner.Parent() != nil || (obj != nil && obj.Exported()) {
 				break
 			}
+			if m.acquiresElectionMutex(owner) {
+				break // the function that takes the lock owns the critical section
+			}
 			sites := m.callers[owner]
 			if len(sites) != 1 || sites[0].IsGo || sites[0].IsDef {
 				break
@@ -727,4 +730,20 @@ func (m *Model) isCtorCode(f *ssa.Function) bool {
 	}
 	m.ctorCode[f] = res
 	return res
+}
+
+
+// acquiresElectionMutex: f itself contains a write-lock acquisition of the election mutex.
+func (m *Model) acquiresElectionMutex(f *ssa.Function) bool {
+	found := false
+	for _, b := range f.Blocks {
+		for _, in := range b.Instrs {
+			if call, ok := in.(*ssa.Call); ok {
+				if op, ok := m.lockOpOf(&call.Call); ok && op.Kind == "Lock" && op.ID == m.path(m.Mu) {
+					found = true
+				}
+			}
+		}
+	}
+	return found
 }
